@@ -117,9 +117,9 @@ def outcome_words():
             if fn.name != "add_exit":
                 continue
             for n in t1lib.find_all(fn, lambda n: isinstance(n, ast.If)):
-                names = sorted({c.args[1].id for c in ast.walk(n.test)
-                                if isinstance(c, ast.Call) and isinstance(c.func, ast.Name) and c.func.id == "isinstance"
-                                and len(c.args) == 2 and isinstance(c.args[1], ast.Name)})
+                names = sorted({x.id for c in ast.walk(n.test)
+                                if isinstance(c, ast.Call) and isinstance(c.func, ast.Name) and c.func.id == "isinstance" and len(c.args) == 2
+                                for x in (c.args[1].elts if isinstance(c.args[1], ast.Tuple) else [c.args[1]]) if isinstance(x, ast.Name)})
                 if not names or any(not x.endswith("Node") for x in names):
                     continue
 
